@@ -35,6 +35,7 @@ class VmapCall:
     axis_size: object  # int | None
     args: tuple
     repeat: bool = False  # use .repeat(n) sugar
+    kwargs: tuple = ()  # keyword arguments (passed unmapped)
 
 
 @dataclass(frozen=True)
@@ -44,6 +45,7 @@ class ScanCall:
     length: int
     init: str
     xs: str
+    kwargs: tuple = ()
 
 
 @dataclass(frozen=True)
@@ -119,9 +121,11 @@ def compile_prog(prog: Prog):
                 val = callees[st.addr](*a, **k) @ st.addr
             elif isinstance(st, VmapCall):
                 a = [evaluate(e, jnp, v) for e in st.args]
-                val = callees[st.addr](*a) @ st.addr
+                k = {n: evaluate(e, jnp, v) for n, e in st.kwargs}
+                val = callees[st.addr](*a, **k) @ st.addr
             elif isinstance(st, ScanCall):
-                val = callees[st.addr](evaluate(st.init, jnp, v), evaluate(st.xs, jnp, v)) @ st.addr
+                k = {n: evaluate(e, jnp, v) for n, e in st.kwargs}
+                val = callees[st.addr](evaluate(st.init, jnp, v), evaluate(st.xs, jnp, v), **k) @ st.addr
             elif isinstance(st, CondCall):
                 a = [evaluate(e, jnp, v) for e in st.args]
                 val = callees[st.addr](evaluate(st.pred, jnp, v), *a) @ st.addr
